@@ -1956,3 +1956,158 @@ def check_helper(src, rel, cls, kind, cli, contract, globals_):
     rep.solver_calls = ex.solver_calls
     rep.ex = ex
     return rep
+
+
+# ---------------------------------------------------------------------------------------------
+# cli() level: structural obligations on the REAL source of the tools (DESIGN C17: -T chain is a left fold,
+# output format dispatch, formula class handed to the helpers, header fields, kthlist2pebbling == peb)
+# verdict per obligation: True (holds) / False (contradicted: decisive) / None (pattern not recognised: undecided)
+# ---------------------------------------------------------------------------------------------
+def _find_assign(fn, target_src):
+    return [n for n in ast.walk(fn) if isinstance(n, ast.Assign) and len(n.targets) == 1 and ast.unparse(n.targets[0]) == target_src]
+
+
+def _tool_cli(src, rel, tool, fclass_mod, fclass, with_chain, out):
+    def ob(name, verdict, detail=''):
+        out.append(Obligation('cli:' + tool, 'structure', name, verdict, True, detail))
+    m = src.module(rel)
+    cli = m['funcs'].get('cli')
+    if cli is None:
+        ob('cli-found', None, 'no function cli in ' + rel)
+        return
+    # the helper is called with the tool's formula class
+    calls = [n for n in ast.walk(cli) if isinstance(n, ast.Call) and ast.unparse(n.func) == 'args.generator.build_formula']
+    if len(calls) != 1:
+        ob('build-formula-call', None, 'expected exactly one args.generator.build_formula(..) call')
+        return
+    c = calls[0]
+    kw = {k.arg: k.value for k in c.keywords}
+    fc = kw.get('formula_class') or (c.args[1] if len(c.args) > 1 else None)
+    first = c.args[0] if c.args else kw.get('args')
+    if fc is None or not isinstance(fc, ast.Name) or first is None:
+        ob('formula-class', None, 'formula_class argument not recognised')
+    else:
+        r = src.resolve(rel, fc.id)
+        good = r[0] == 'class' and r[1] == fclass_mod and r[2].name == fclass and ast.unparse(first) == 'args'
+        ob('formula-class', good, '' if good else '{} calls build_formula({}, formula_class={} from {})'.format(
+            tool, ast.unparse(first), fc.id, r[1] if r[0] == 'class' else r[0]))
+    acc = None
+    for a in ast.walk(cli):
+        if isinstance(a, ast.Assign) and a.value is c and isinstance(a.targets[0], ast.Name):
+            acc = a.targets[0].id
+    if acc is None:
+        ob('accumulator', None, 'result of build_formula is not bound to a name')
+        return
+    # output format dispatch
+    gf = _find_assign(cli, 'output_format')
+    good = len(gf) == 1 and ast.unparse(gf[0].value) == 'guess_output_format(args.output, args.output_format)'
+    ob('format-guess', True if good else None, '' if good else 'output_format is not guess_output_format(args.output, args.output_format)')
+    pairs = []
+    for n in ast.walk(cli):
+        if isinstance(n, ast.If) and isinstance(n.test, ast.Compare) and ast.unparse(n.test.left) == 'output_format' and \
+                len(n.test.ops) == 1 and isinstance(n.test.ops[0], ast.Eq) and isinstance(n.test.comparators[0], ast.Constant) and \
+                len(n.body) == 1 and isinstance(n.body[0], ast.Return) and isinstance(n.body[0].value, ast.Call):
+            pairs.append((n.test.comparators[0].value, ast.unparse(n.body[0].value)))
+    if not pairs:
+        ob('format-dispatch', None, "no `if output_format == X: return F.to_X()` found")
+    else:
+        wrong = [(f, r) for f, r in pairs if r != '{}.to_{}()'.format(acc, f)]
+        ob('format-dispatch', not wrong, '' if not wrong else "mode='string' renders format {} with {}".format(*wrong[0]))
+    tf = [n for n in ast.walk(cli) if isinstance(n, ast.Call) and ast.unparse(n.func) == acc + '.to_file']
+    if len(tf) == 1:
+        kw = {k.arg: ast.unparse(k.value) for k in tf[0].keywords}
+        a0 = ast.unparse(tf[0].args[0]) if tf[0].args else kw.get('fileorname')
+        good = a0 == 'args.output' and kw.get('fileformat') == 'output_format' and kw.get('export_header') == 'args.verbose' and \
+            kw.get('export_varnames') == 'args.varnames'
+        ob('output-call', good, '' if good else 'to_file is called as ' + ast.unparse(tf[0]))
+    else:
+        ob('output-call', None, 'to_file call not recognised')
+    # header fields
+    hd = {ast.unparse(a.targets[0]): a for a in ast.walk(cli) if isinstance(a, ast.Assign) and
+          ast.unparse(a.targets[0]).startswith(acc + '.header[')}
+    cl = hd.get("{}.header['command line']".format(acc))
+    want = "'{} ' + ' '.join(argv[1:])".format(tool)
+    ob('header-command-line', None if cl is None else ast.unparse(cl.value) == want,
+       '' if cl is not None and ast.unparse(cl.value) == want else 'header[command line] is ' + (ast.unparse(cl.value) if cl else 'not set'))
+    sd = hd.get("{}.header['random seed']".format(acc))
+    ob('header-random-seed', None if sd is None else ast.unparse(sd.value) == 'args.seed',
+       '' if sd is not None and ast.unparse(sd.value) == 'args.seed' else 'header[random seed] is ' + (ast.unparse(sd.value) if sd else 'not set'))
+    if not with_chain:
+        return
+    # -T chain: left fold over the transformation namespaces, in command line order
+    pc = [a for a in ast.walk(cli) if isinstance(a, ast.Assign) and isinstance(a.value, ast.Call) and
+          ast.unparse(a.value.func) == 'parse_command_line' and isinstance(a.targets[0], ast.Tuple) and len(a.targets[0].elts) == 2]
+    if len(pc) != 1:
+        ob('T-chain-fold', None, 'args, t_args = parse_command_line(..) not recognised')
+        return
+    tname = ast.unparse(pc[0].targets[0].elts[1])
+    loops = [n for n in ast.walk(cli) if isinstance(n, ast.For) and
+             any(isinstance(x, ast.Call) and ast.unparse(x.func).endswith('.transform_cnf') for x in ast.walk(n))]
+    if len(loops) != 1:
+        ob('T-chain-fold', None, 'transformation loop not recognised')
+    else:
+        lp = loops[0]
+        it, tg = ast.unparse(lp.iter), ast.unparse(lp.target)
+        assigns = [a for a in ast.walk(lp) if isinstance(a, ast.Assign)]
+        want = '{0} = {1}.transformation.transform_cnf({0}, {1})'.format(acc, tg)
+        others = [a for a in ast.walk(lp) if isinstance(a, (ast.Assign, ast.AugAssign, ast.Break, ast.Continue)) and
+                  (not isinstance(a, ast.Assign) or ast.unparse(a) != want)]
+        good = it == tname and len(assigns) >= 1 and all(ast.unparse(a) == want for a in assigns) and not others and not lp.orelse
+        between = [a for a in ast.walk(cli) if isinstance(a, ast.Assign) and ast.unparse(a.targets[0]) == acc and
+                   a.value is not c and a not in assigns]
+        good = good and not between
+        ob('T-chain-fold', good, '' if good else 'the -T loop is not the left fold `for t in {}: {} = t.transformation.transform_cnf({}, t)`: '
+           'iterates over {}, body assigns {}'.format(tname, acc, acc, it, [ast.unparse(a) for a in assigns][:2]))
+    # parse_command_line: split at each -T, parse the chunks in order
+    p = m['funcs'].get('parse_command_line')
+    if p is None:
+        ob('T-split', None, 'parse_command_line not found')
+        return
+    text = [ast.unparse(s) for s in p.body if not (isinstance(s, ast.Expr) and isinstance(s.value, ast.Constant))]
+    a = p.args.args
+    argv, fp, tp = a[0].arg, a[1].arg, a[2].arg if len(a) > 2 else None
+    want = ['cmd_chunks = [[]]',
+            "for arg in {}:\n    if arg == '-T':\n        cmd_chunks.append([])\n    else:\n        cmd_chunks[-1].append(arg)".format(argv),
+            'generator_cmd = cmd_chunks[0][1:]', 'transformation_cmds = cmd_chunks[1:]',
+            'fargs = {}.parse_args(generator_cmd)'.format(fp), 'targs = []',
+            'for cmd in transformation_cmds:\n    targs.append({}.parse_args(cmd))'.format(tp), 'return (fargs, targs)']
+    ob('T-split', True if text == want else None, '' if text == want else 'parse_command_line no longer has the recognised shape')
+
+
+def check_cli_structure(src):
+    out = []
+    _tool_cli(src, 'cnfgen/clitools/cnfgen.py', 'cnfgen', 'cnfgen/formula/cnf.py', 'CNF', True, out)
+    _tool_cli(src, 'cnfgen/clitools/pbgen.py', 'pbgen', 'cnfgen/formula/opb.py', 'OPB', False, out)
+    # kthlist2pebbling.cli == PebblingFormula(readGraph(stdin,'dag','kthlist')) then the optional transformation
+    rel = 'cnfgen/clitools/kthlist2pebbling.py'
+
+    def ob(name, verdict, detail=''):
+        out.append(Obligation('cli:kthlist2pebbling', 'structure', name, verdict, True, detail))
+    try:
+        cli = src.module(rel)['funcs'].get('cli')
+    except FileNotFoundError:
+        cli = None
+    if cli is None:
+        ob('cli-found', None, 'kthlist2pebbling.cli not found')
+        return out
+    g = [a for a in ast.walk(cli) if isinstance(a, ast.Assign) and isinstance(a.value, ast.Call) and ast.unparse(a.value.func) == 'readGraph']
+    f = [a for a in ast.walk(cli) if isinstance(a, ast.Assign) and isinstance(a.value, ast.Call) and ast.unparse(a.value.func) == 'PebblingFormula']
+    if len(g) != 1 or len(f) != 1:
+        ob('peb-of-kthlist', None, 'readGraph / PebblingFormula calls not recognised')
+        return out
+    gname, fname = ast.unparse(g[0].targets[0]), ast.unparse(f[0].targets[0])
+    r = src.resolve(rel, 'PebblingFormula')
+    good = ast.unparse(g[0].value) in ("readGraph(sys.stdin, 'dag', file_format='kthlist')", "readGraph(sys.stdin, 'dag', 'kthlist')") and \
+        ast.unparse(f[0].value) == 'PebblingFormula({})'.format(gname) and r[0] == 'def' and r[1] == 'cnfgen/families/pebbling.py'
+    ob('peb-of-kthlist', good, '' if good else 'builds {} from {}'.format(ast.unparse(f[0].value), ast.unparse(g[0].value)))
+    tr = [n for n in ast.walk(cli) if isinstance(n, ast.If) and ast.unparse(n.test) in ("hasattr(args, 'transformation')",)]
+    if len(tr) != 1 or len(tr[0].body) != 1 or len(tr[0].orelse) != 1:
+        ob('optional-transformation', None, 'transformation step not recognised')
+    else:
+        b, e = ast.unparse(tr[0].body[0]), ast.unparse(tr[0].orelse[0])
+        res = b.split(' = ')[0]
+        good = b == '{} = args.transformation.transform_cnf({}, args)'.format(res, fname) and e == '{} = {}'.format(res, fname)
+        rets = [ast.unparse(n.value) for n in ast.walk(cli) if isinstance(n, ast.Return) and n.value is not None]
+        good = good and all(x.startswith(res) for x in rets) and len(rets) >= 1
+        ob('optional-transformation', good, '' if good else 'transformation step is `{}` / `{}`, returns {}'.format(b, e, rets))
+    return out
